@@ -143,7 +143,7 @@ func runCheck(p *PropCheck, tier string) int {
 		seen := map[string]int{}
 		for _, v := range j.res.Violations {
 			f := Finding{Obligation: j.ID, Kind: v.Kind, Msg: v.Msg, Inputs: v.Extra["inputs"], Entry: j.Entry, PkgDir: j.Pkg}
-			if v.Kind == "panic" || v.Kind == "blocked" || v.Kind == "alloc" {
+			if v.Kind == "panic" || v.Kind == "blocked" || v.Kind == "alloc" || v.Kind == "hang" {
 				f.Msg = stripSite(v.Msg)
 				f.Fn = v.Site
 			}
@@ -345,7 +345,11 @@ func replayFinding(p *PropCheck, f Finding) (bool, string, string) {
 	os.WriteFile(filepath.Join(dir, "overlay.json"), ovj, 0o644)
 	meta, _ := json.MarshalIndent(map[string]string{"property": p.ID, "signature": f.Signature(), "entry": f.Entry, "pkg": f.PkgDir, "repo": repoDir()}, "", " ")
 	os.WriteFile(filepath.Join(dir, "meta.json"), meta, 0o644)
-	run := fmt.Sprintf("#!/bin/sh\n# replays the counterexample against the real build; prints REPLAY-OUTCOME\ncd %s && env -u GOTOOLCHAIN GOFLAGS=-mod=mod GOPROXY=off VERIF_ENTRY=%s VERIF_MODEL=%s/model.json go test -v -vet=off -count=1 -timeout 120s -run '^TestVerifReplay$' -overlay %s/overlay.json ./%s/ 2>&1\n",
+	tmo := "120s"
+	if f.Kind == "hang" {
+		tmo = "20s"
+	}
+	run := fmt.Sprintf("#!/bin/sh\n# replays the counterexample against the real build; prints REPLAY-OUTCOME\ncd %s && env -u GOTOOLCHAIN GOFLAGS=-mod=mod GOPROXY=off VERIF_ENTRY=%s VERIF_MODEL=%s/model.json go test -v -vet=off -count=1 -timeout "+tmo+" -run '^TestVerifReplay$' -overlay %s/overlay.json ./%s/ 2>&1\n",
 		repoDir(), f.Entry, dir, dir, f.PkgDir)
 	os.WriteFile(filepath.Join(dir, "run.sh"), []byte(run), 0o755)
 	ok, detail := execReplay(dir)
